@@ -57,7 +57,7 @@ func (d Doc) XML() string {
 		if e.Tagged {
 			return `<tag k="a" v="b"/>`
 		}
-		return ""
+		return `<tag k="c" v="d"/>` // every other element carries a tag no extraction scenario selects
 	}
 	for _, e := range d {
 		switch e.Kind {
@@ -127,9 +127,10 @@ const (
 	keepAll = iota
 	keepTags
 	keepBounds
+	keepOtherTags // selects exactly the elements that are not Tagged (second Filter of a history)
 )
 
-var keepNames = []string{"KeepAll", "KeepTags{a:[b]}", "KeepBounds([-1,1]^2)"}
+var keepNames = []string{"KeepAll", "KeepTags{a:[b]}", "KeepBounds([-1,1]^2)", "KeepTags{c:[d]}"}
 
 func keepFunc(k int) gosm.KeepFunc {
 	switch k {
@@ -137,6 +138,8 @@ func keepFunc(k int) gosm.KeepFunc {
 		return gosm.KeepAll()
 	case keepTags:
 		return gosm.KeepTags(map[string][]string{"a": {"b"}})
+	case keepOtherTags:
+		return gosm.KeepTags(map[string][]string{"c": {"d"}})
 	}
 	return gosm.KeepBounds(&geom.Bounds{Min: geom.Point{X: -1, Y: -1}, Max: geom.Point{X: 1, Y: 1}})
 }
@@ -151,6 +154,8 @@ func lfp(d Doc, keep int) map[string]bool {
 			return true
 		case keepTags:
 			return e.Tagged
+		case keepOtherTags:
+			return !e.Tagged
 		}
 		if e.Kind == 'n' {
 			return e.Inside
@@ -308,6 +313,26 @@ func scenarios(tier string) []Scenario {
 			}
 		})
 	}
+	// documents with a dangling reference shared by two elements (a regional
+	// extract cut at its border): the missing object stays wanted for ever and
+	// must not make anything else selected
+	for _, d := range []Doc{
+		{n(1, true), w(1, 1, 9), w(2, 9, 3), n(3, false)},
+		{n(1, true), w(1, 1, 9), w(2, 9, 3), n(3, false), r(1, Ref{'w', 2})},
+		{n(1, true), r(1, Ref{'n', 1}, Ref{'w', 9}), r(2, Ref{'w', 9}, Ref{'n', 3}), n(3, false)},
+		{n(1, true), r(1, Ref{'n', 1}, Ref{'r', 9}), r(2, Ref{'r', 9}, Ref{'n', 3}), n(3, false)},
+	} {
+		permutations(d, func(p Doc) {
+			out = append(out, Scenario{"extract", p, keepBounds, 1, seqBound, 1, false})
+			q := append(Doc{}, p...)
+			for t := range q {
+				if q[t].Kind == 'n' && q[t].Inside {
+					q[t].Tagged = true
+				}
+			}
+			out = append(out, Scenario{"extract", q, keepTags, 1, seqBound, 1, false})
+		})
+	}
 	// concurrent tier: sharp documents in which the collision is forced
 	tagged := func(e Elem) Elem { e.Tagged = true; return e }
 	sharp := []Doc{
@@ -442,7 +467,53 @@ func extractOnce(s Scenario) (string, string) {
 	return out, viol
 }
 
-func filterOnce(s Scenario, full *gosm.Data) (string, string) {
+// dataString renders every field of a data set in a canonical order.
+func dataString(d *gosm.Data) string {
+	var l []string
+	for _, n := range d.Nodes {
+		l = append(l, fmt.Sprintf("n%d %+v", n.ID, *n))
+	}
+	for _, w := range d.Ways {
+		l = append(l, fmt.Sprintf("w%d %+v", w.ID, *w))
+	}
+	for _, r := range d.Relations {
+		l = append(l, fmt.Sprintf("r%d %+v", r.ID, *r))
+	}
+	sort.Strings(l)
+	return strings.Join(l, "\n")
+}
+
+// copyData is a deep copy of the exported content of a data set (every
+// execution of a filter scenario starts from its own copy, so that an
+// execution that writes to its input cannot disturb the next one).
+func copyData(d *gosm.Data) *gosm.Data {
+	o := &gosm.Data{Nodes: map[osm.NodeID]*gosm.Node{}, Ways: map[osm.WayID]*gosm.Way{}, Relations: map[osm.RelationID]*gosm.Relation{}}
+	for k, n := range d.Nodes {
+		c := *n
+		c.Tags = append(osm.Tags(nil), n.Tags...)
+		o.Nodes[k] = &c
+	}
+	for k, w := range d.Ways {
+		c := *w
+		c.Tags = append(osm.Tags(nil), w.Tags...)
+		c.Nodes = append([]osm.NodeID(nil), w.Nodes...)
+		o.Ways[k] = &c
+	}
+	for k, r := range d.Relations {
+		c := *r
+		c.Tags = append(osm.Tags(nil), r.Tags...)
+		c.Members = append([]gosm.Member(nil), r.Members...)
+		o.Relations[k] = &c
+	}
+	return o
+}
+
+// fullSnapshot is the rendering of the scenario's input data set taken before
+// the first Filter call.
+var fullSnapshot string
+
+func filterOnce(s Scenario, original *gosm.Data) (string, string) {
+	full := copyData(original)
 	k := keepFunc(s.Keep)
 	f1 := full.Filter(k)
 	f2 := f1.Filter(k)
@@ -462,6 +533,17 @@ func filterOnce(s Scenario, full *gosm.Data) (string, string) {
 			viol = "filter-returns-more"
 		}
 	}
+	// history: Filter must leave its input as it was, and a different Filter on
+	// the same input afterwards must still see all of it
+	if viol == "" && dataString(full) != fullSnapshot {
+		viol = "filter-modifies-its-input"
+	}
+	if viol == "" {
+		f3 := full.Filter(keepFunc(keepOtherTags))
+		if setString(dataSet(f3)) != setString(lfp(s.Doc, keepOtherTags)) {
+			viol = "second-filter-on-the-same-input-not-least-fixpoint"
+		}
+	}
 	return got + " | twice:" + setString(dataSet(f2)), viol
 }
 
@@ -476,6 +558,7 @@ func runScenario(idx int, s Scenario, shard int) scenResult {
 			res.Harness = fmt.Sprintf("cannot build the full data set for the filter scenario: %v", err)
 			return res
 		}
+		fullSnapshot = dataString(full)
 	}
 	var stop func() bool
 	if dl, err := strconv.ParseInt(os.Getenv("VERIF_DEADLINE"), 10, 64); err == nil && dl > 0 {
@@ -561,7 +644,7 @@ func main() {
 		return
 	}
 	rep := report.New("C18", tier, "model_checking")
-	rep.Rule = "E3: instrumented encoding/osm (sync.Mutex/RWMutex, errgroup, channel, go rewritten to the vrt shim) under a cooperative scheduler; stateless DFS over all schedules with <= bound preemptions (scheduling point before every lock/unlock/send/recv/close/spawn/wait); sequential tier: every dangling-free document over 3 nodes, 2 ways, 2 relations with <= 4(5) elements in every element order x {KeepAll, KeepBounds, KeepTags on each element}, one worker, bound 1(2); concurrent tier: 10 sharp documents x 2-3 workers x keep functions, bound 1-2(2-3); Filter: map-iteration orders as environment choices, deviation bound 1(2). sequential tier: a second extraction from the same reader must agree. Oracle per execution: Nodes/Ways/Relations = sequential least fixpoint, Check()==nil for dangling-free documents, no panic/deadlock/livelock; Filter = fixpoint, idempotent, closed, subset. Non-trivial = executions with at least one deviation."
+	rep.Rule = "E3: instrumented encoding/osm (sync.Mutex/RWMutex, errgroup, channel, go rewritten to the vrt shim) under a cooperative scheduler; stateless DFS over all schedules with <= bound preemptions (scheduling point before every lock/unlock/send/recv/close/spawn/wait); sequential tier: every dangling-free document over 3 nodes, 2 ways, 2 relations with <= 4(5) elements in every element order x {KeepAll, KeepBounds, KeepTags on each element}, one worker, bound 1(2); concurrent tier: 10 sharp documents x 2-3 workers x keep functions, bound 1-2(2-3); Filter: map-iteration orders as environment choices, deviation bound 1(2). sequential tier: a second extraction from the same reader must agree; four documents with a dangling reference shared by two elements in every element order. Filter history: the input data set is unchanged afterwards (every field) and a second Filter with another keep function on the same input is its least fixpoint. Oracle per execution: Nodes/Ways/Relations = sequential least fixpoint, Check()==nil for dangling-free documents, no panic/deadlock/livelock; Filter = fixpoint, idempotent, closed, subset. Non-trivial = executions with at least one deviation."
 	rep.Assumptions = []string{"ExtractPBF is not explored (osmpbf owns uncontrolled goroutines); it shares extract(), which is", "memory-model effects below the hooked synchronisation operations are covered only by a separate -race pass", "the free-running package's outcome must be among the explored outcomes (shim conformance)"}
 	sc := scenarios(tier)
 	rep.Set("scenarios", len(sc))
@@ -689,6 +772,7 @@ func replay(path string) {
 	var full *gosm.Data
 	if s.Kind == "filter" {
 		full, _ = gosm.ExtractXML(context.Background(), strings.NewReader(s.Doc.XML()), gosm.KeepAll(), true)
+		fullSnapshot = dataString(full)
 	}
 	var o, v string
 	x := vrt.Run(f.Case.Schedule, vrt.Options{EnvChoices: s.Kind == "filter", KeepTrace: true}, func() {
